@@ -1,0 +1,22 @@
+//go:build verif
+
+// Contracts for the deductive verification in /verif (govc): string-type selection of the
+// ASN.1 encoder (properties C18 / C22 / C04: what Marshal emits must decode again). This file
+// contains comments only; it is compiled only with -tags verif and declares nothing.
+
+package asn1
+
+// makeField is reflection-driven (reflect.Value calls are outside the verifier's reach), so it
+// is claimed PARTIALLY: only the loop invariant and the at-call assertion below are
+// obligations; nothing is promised to callers. What is pinned is the decision "a string
+// without an explicit string type is emitted as PrintableString only if every character is
+// an ASCII character of the PrintableString set" (otherwise the decoder, which checks the
+// PrintableString character set, rejects what Marshal produced): rstr() is the string the
+// selection loop ranges over (v.String()), rpos() the byte position of the range iterator.
+//@ func makeField
+//@   maypanic
+//@   modifies all
+//@   claims at inv
+//@   loop 1 invariant tag == TagPrintableString && 0 <= rpos() && rpos() <= len(rstr())
+//@   loop 1 invariant [printable] forall(j, 0, rpos(), rstr()[j] < 0x80 && printableChar(rstr()[j]))
+//@   at call makeBody assert [printable] params.stringType == 0 && tag == TagPrintableString ==> forall(j, 0, len(rstr()), rstr()[j] < 0x80 && printableChar(rstr()[j]))
